@@ -128,3 +128,44 @@ m("c09-warn-in-inactive-phase", ["C09"], C,
   "            if phase_conf:\n                if phase not in phase_conf:\n                    return \"\"", "            if phase_conf:\n                if phase not in phase_conf and False:\n                    return \"\"")
 m("c09-rollup-any-row", ["C09"], Y, "                if w != \"\":\n                    dwarns[dname] = 1", "                if w != \"\":\n                    dwarns[list(dwarns)[0]] = 1")
 m("c09-po-uses-pi", ["C09"], C, "            \"po\": pi - pl,", "            \"po\": pi,")
+
+# ---- C10 -------------------------------------------------------------------------------------
+m("c10-wrong-clamp-branch", ["C10"], C,
+  "            if y < self._ymin:\n                return self._intp([self._xmin], [self._ymin])[0]\n            if y > self._ymax:\n                return self._intp([self._xmin], [self._ymax])[0]\n            return self._intp([self._xmin], [y])[0]",
+  "            if y < self._ymin:\n                return self._intp([self._xmin], [self._ymax])[0]\n            if y > self._ymax:\n                return self._intp([self._xmin], [self._ymax])[0]\n            return self._intp([self._xmin], [y])[0]")
+m("c10-1d-abs-removed", ["C10"], C, "        return np.interp(np.abs(x), self._x, self._fx)", "        return np.interp(x * 1.0001, self._x, self._fx)")
+m("c10-vloss-table-column-major", ["C10"], C,
+  "                    vd = np.asarray(vdrop[\"vdrop\"]).reshape(1, -1)[0].tolist()\n                self._ipr = _Interp2d(cur, volt, vd)\n            self._params[\"vdrop\"] = vdrop\n        else:\n            self._params[\"vdrop\"] = abs(vdrop)\n            self._ipr = _Interp0d(abs(vdrop))\n        self._limits = _check_limits(limits)",
+  "                    vd = np.asarray(vdrop[\"vdrop\"]).T.reshape(1, -1)[0].tolist()\n                self._ipr = _Interp2d(cur, volt, vd)\n            self._params[\"vdrop\"] = vdrop\n        else:\n            self._params[\"vdrop\"] = abs(vdrop)\n            self._ipr = _Interp0d(abs(vdrop))\n        self._limits = _check_limits(limits)")
+m("c10-pswitch-xy-swapped", ["C10"], C,
+  "                    igi = np.asarray(ig[\"ig\"]).reshape(1, -1)[0].tolist()\n                self._ipr = _Interp2d(cur, volt, igi)\n        else:\n            self._ipr = _Interp0d(abs(ig))\n        self._params[\"ig\"] = ig\n        self._params[\"iis\"] = abs(iis)\n        self._params[\"rt\"] = abs(rt)\n        self._limits = _check_limits(limits)\n\n    def _solv_inp_curr(self, vi, vo, io, phase, phase_conf=[], pstate={}):\n        \"\"\"Calculate PSwitch",
+  "                    igi = np.asarray(ig[\"ig\"]).reshape(1, -1)[0].tolist()\n                self._ipr = _Interp2d(volt, cur, igi)\n        else:\n            self._ipr = _Interp0d(abs(ig))\n        self._params[\"ig\"] = ig\n        self._params[\"iis\"] = abs(iis)\n        self._params[\"rt\"] = abs(rt)\n        self._limits = _check_limits(limits)\n\n    def _solv_inp_curr(self, vi, vo, io, phase, phase_conf=[], pstate={}):\n        \"\"\"Calculate PSwitch")
+m("c10-2d-right-edge-uses-ymax", ["C10"], C,
+  "            return self._intp([self._xmax], [y])[0]", "            return self._intp([self._xmax], [self._ymax])[0]")
+
+# ---- C11 -------------------------------------------------------------------------------------
+m("c11-pswitch-abs-rs-dropped", ["C11"], C, "        self._params[\"rs\"] = abs(rs)\n        if isinstance(ig, dict):\n            _check_interp(ig, \"ig\")\n            if np.min(ig[\"ig\"]) < 0.0:\n                raise ValueError(\"ig values must be >= 0.0\")\n            if len(ig[\"vi\"]) == 1:\n                self._ipr = _Interp1d(ig[\"io\"], ig[\"ig\"][0])\n            else:\n                cur = []\n                volt = []\n                for v in ig[\"vi\"]:\n                    cur += ig[\"io\"]\n                    volt += len(ig[\"io\"]) * [v]\n                    igi = np.asarray(ig[\"ig\"]).reshape(1, -1)[0].tolist()\n                self._ipr = _Interp2d(cur, volt, igi)\n        else:\n            self._ipr = _Interp0d(abs(ig))\n        self._params[\"ig\"] = ig\n        self._params[\"iis\"] = abs(iis)\n        self._params[\"rt\"] = abs(rt)\n        self._limits = _check_limits(limits)\n\n    def _solv_inp_curr(self, vi, vo, io, phase, phase_conf=[], pstate={}):\n        \"\"\"Calculate PSwitch",
+  "        self._params[\"rs\"] = rs\n        if isinstance(ig, dict):\n            _check_interp(ig, \"ig\")\n            if np.min(ig[\"ig\"]) < 0.0:\n                raise ValueError(\"ig values must be >= 0.0\")\n            if len(ig[\"vi\"]) == 1:\n                self._ipr = _Interp1d(ig[\"io\"], ig[\"ig\"][0])\n            else:\n                cur = []\n                volt = []\n                for v in ig[\"vi\"]:\n                    cur += ig[\"io\"]\n                    volt += len(ig[\"io\"]) * [v]\n                    igi = np.asarray(ig[\"ig\"]).reshape(1, -1)[0].tolist()\n                self._ipr = _Interp2d(cur, volt, igi)\n        else:\n            self._ipr = _Interp0d(abs(ig))\n        self._params[\"ig\"] = ig\n        self._params[\"iis\"] = abs(iis)\n        self._params[\"rt\"] = abs(rt)\n        self._limits = _check_limits(limits)\n\n    def _solv_inp_curr(self, vi, vo, io, phase, phase_conf=[], pstate={}):\n        \"\"\"Calculate PSwitch")
+m("c11-eff-upper-check-weakened", ["C11"], C, "            if np.max(eff[\"eff\"]) > 1.0:", "            if np.max(eff[\"eff\"]) > 1.5:")
+m("c11-linreg-vdrop-equal-allowed", ["C11"], C, "        if not (abs(vdrop) < abs(vo)):", "        if not (abs(vdrop) <= abs(vo)):")
+m("c11-iload-rt-not-normalised", ["C11"], C, "        self._params[\"iis\"] = abs(iis)\n        self._params[\"rt\"] = abs(rt)\n        self._ipr = None\n        self._params[\"loss\"] = loss", "        self._params[\"iis\"] = abs(iis)\n        self._params[\"rt\"] = rt\n        self._ipr = None\n        self._params[\"loss\"] = loss")
+m("c11-pmux-rs-abs-overwritten", ["C11"], C, "        if not isinstance(rs, list):\n            rs = abs(rs)\n        elif not all(isinstance(e, (int, float)) for e in rs):\n            raise ValueError(\"rs values must be numbers!\")\n        self._params[\"rs\"] = rs\n        if isinstance(ig, dict):",
+  "        if not isinstance(rs, list):\n            self._params[\"rs\"] = abs(rs)\n        elif not all(isinstance(e, (int, float)) for e in rs):\n            raise ValueError(\"rs values must be numbers!\")\n        self._params[\"rs\"] = rs\n        if isinstance(ig, dict):")
+m("c11-limits-length-unchecked", ["C11"], C, "                if len(limits[key]) != 2 or not (", "                if len(limits[key]) < 2 or not (")
+m("c11-io-monotonic-nonstrict", ["C11"], C, "    if not np.all(np.diff(idata[\"io\"]) > 0):", "    if not np.all(np.diff(idata[\"io\"]) >= 0):")
+
+# ---- C12 -------------------------------------------------------------------------------------
+m("c12-converter-iq-dropped", ["C12"], Y, "                                    eff=eff,\n                                    iq=iq,\n", "                                    eff=eff,\n")
+m("c12-pload-pwrs-dropped", ["C12"], Y, "                                        pwrs=pwrs,\n", "")
+m("c12-rload-loss-dropped", ["C12"], Y, "                                        cname, rs=rs, rt=rt, limits=limits, loss=loss\n", "                                        cname, rs=rs, rt=rt, limits=limits\n")
+m("c12-pswitch-iis-from-ig", ["C12"], Y,
+  "                                comp=PSwitch(\n                                    cname,\n                                    rs=rs,\n                                    ig=ig,\n                                    limits=limits,\n                                    iis=iis,",
+  "                                comp=PSwitch(\n                                    cname,\n                                    rs=rs,\n                                    ig=ig,\n                                    limits=limits,\n                                    iis=iq,")
+m("c12-version-gate-reversed", ["C12"], Y, "        if version.parse(sysloss.__version__) < version.parse(ver):", "        if version.parse(sysloss.__version__) > version.parse(ver):")
+m("c12-version-gate-string-compare", ["C12"], Y, "        if version.parse(sysloss.__version__) < version.parse(ver):", "        if sysloss.__version__ < ver:")
+m("c12-mux-parents-sorted", ["C12"], Y, "                \"parents\": [self._g[n]._params[\"name\"] for n in self._parents[pidx]],", "                \"parents\": sorted(self._g[n]._params[\"name\"] for n in self._parents[pidx]),")
+m("c12-linreg-vdrop-default", ["C12"], Y, "                            vdrop = _get_opt(c[\"params\"], \"vdrop\", 0.0)\n                            self.add_comp(\n                                p,\n                                comp=LinReg(", "                            vdrop = _get_opt(c[\"params\"], \"v_drop\", 0.0)\n                            self.add_comp(\n                                p,\n                                comp=LinReg(")
+m("c12-source-limits-dropped", ["C12"], Y, "                    self.add_source(Source(entires[e], vo=vo, rs=rs, limits=lim))", "                    self.add_source(Source(entires[e], vo=vo, rs=rs))")
+m("c12-mux-rt-dropped", ["C12"], Y, "                        comp=PMux(entires[e], rs=rs, ig=ig, iis=iis, rt=rt, limits=lim),", "                        comp=PMux(entires[e], rs=rs, ig=ig, iis=iis, limits=lim),")
+m("c12-rectifier-vdrop-dropped", ["C12"], Y, "                                    vdrop=vdrop,\n                                    rs=rs,\n", "                                    rs=rs,\n")
+m("c12-rloss-rt-dropped", ["C12"], Y, "                                    p, comp=RLoss(cname, rs=rs, rt=rt, limits=limits)", "                                    p, comp=RLoss(cname, rs=rs, limits=limits)")
